@@ -897,6 +897,118 @@ FLOW_FACTS = {
 }
 
 
+# ------------------------------------------------------------------------------------------------
+# sigs/hdf5.py: which attribute of the HDF5 group holds which field, on the writing and on the reading side (C12), as data
+# ------------------------------------------------------------------------------------------------
+def meta_rules(repo: Path, out_dir: Path, report: dict):
+	"""Gen/PyMetaRules.lean: the writer's table (attribute name -> what is stored) from `_init_attrs` + `write_metadata`, the reader's table (field -> attribute
+	name) from `HDF5Signatures.__init__` + `read_metadata`.  Accepted statements only; anything else is untranslatable."""
+	bad, wr, rd = [], None, None
+	try:
+		tree = ast.parse((repo / 'src' / 'gambit' / 'sigs' / 'hdf5.py').read_text())
+		consts = {st.targets[0].id: st.value.value for st in tree.body if isinstance(st, ast.Assign) and len(st.targets) == 1
+		          and isinstance(st.targets[0], ast.Name) and isinstance(st.value, ast.Constant)}
+		funcs = {st.name: st for st in tree.body if isinstance(st, ast.FunctionDef)}
+		cls = next(st for st in tree.body if isinstance(st, ast.ClassDef) and st.name == 'HDF5Signatures')
+		meths = {m.name: m for m in cls.body if isinstance(m, ast.FunctionDef)}
+
+		def attr_name(node):
+			if isinstance(node, ast.Constant) and isinstance(node.value, str):
+				return node.value
+			if isinstance(node, ast.Name) and isinstance(consts.get(node.id), str):
+				return consts[node.id]
+			raise Untranslatable(f'attribute name {ast.unparse(node)!r}')
+
+		def store_target(st):
+			t = st.targets[0] if isinstance(st, ast.Assign) and len(st.targets) == 1 else None
+			if isinstance(t, ast.Subscript) and ast.unparse(t.value) == 'group.attrs':
+				return attr_name(t.slice)
+			return None
+		# ---- writer ---------------------------------------------------------------------------
+		wr = []
+		for st in _body(meths['_init_attrs']):
+			name = store_target(st)
+			if name is not None:
+				v = ast.unparse(st.value)
+				if isinstance(st.value, ast.Name) and isinstance(consts.get(st.value.id), int):
+					wr.append((name, f'.version {consts[st.value.id]}'))
+				elif v == 'kmerspec.k':
+					wr.append((name, '.k'))
+				elif v == 'kmerspec.prefix_str':
+					wr.append((name, '.pre'))
+				else:
+					raise Untranslatable(f'_init_attrs stores {v!r}')
+			elif ast.unparse(st) == 'write_metadata(group, meta)':
+				for w in _body(funcs['write_metadata']):
+					name = store_target(w)
+					if name is not None:
+						c = w.value
+						if (isinstance(c, ast.Call) and ast.unparse(c.func) == 'none_to_empty' and len(c.args) == 2 and ast.unparse(c.args[1]) == 'STR_DTYPE'
+								and isinstance(c.args[0], ast.Attribute) and ast.unparse(c.args[0].value) == 'meta'):
+							wr.append((name, f'.field {lean_str(c.args[0].attr)}'))
+						else:
+							raise Untranslatable(f'write_metadata stores {ast.unparse(c)!r}')
+					elif (isinstance(w, ast.If) and ast.unparse(w.test) == 'meta.extra is not None' and len(w.body) == 1 and len(w.orelse) == 1
+							and store_target(w.body[0]) is not None and store_target(w.body[0]) == store_target(w.orelse[0])
+							and ast.unparse(w.body[0].value) == 'json.dumps(meta.extra)' and ast.unparse(w.orelse[0].value) == 'h5.Empty(STR_DTYPE)'):
+						wr.append((store_target(w.body[0]), '.json "extra"'))
+					else:
+						raise Untranslatable(f'write_metadata: statement {ast.unparse(w).splitlines()[0]!r}')
+			else:
+				raise Untranslatable(f'_init_attrs: statement {ast.unparse(st)!r}')
+		# ---- reader ---------------------------------------------------------------------------
+		rd = []
+		init = [ast.unparse(x) for x in _body(meths['__init__'])]
+		import re as _re
+		ks = [x for x in init if x.startswith('self.kmerspec = ')]
+		m = _re.fullmatch(r"self\.kmerspec = KmerSpec\(group\.attrs\['(\w+)'\], group\.attrs\['(\w+)'\]\)", ks[0]) if len(ks) == 1 else None
+		if not m:
+			raise Untranslatable('__init__: the k-mer parameters are not KmerSpec(group.attrs[…], group.attrs[…])')
+		rd += [('k', m.group(1), 'int'), ('pre', m.group(2), 'text')]
+		if 'self.format_version = group.attrs[FMT_VERSION_ATTR]' not in init:
+			raise Untranslatable('__init__: the format version is not read from group.attrs[FMT_VERSION_ATTR]')
+		rd.append(('format_version', consts['FMT_VERSION_ATTR'], 'int'))
+		rm = _body(funcs['read_metadata'])
+		rtexts = [ast.unparse(x) for x in rm]
+		ex = _re.fullmatch(r"extra_str = empty_to_none\(group\.attrs\.get\('(\w+)'\)\)", rtexts[0]) if rtexts else None
+		if not (ex and len(rm) == 3 and rtexts[1] == 'extra = None if extra_str is None else json.loads(extra_str)' and isinstance(rm[2], ast.Return)
+				and isinstance(rm[2].value, ast.Call) and ast.unparse(rm[2].value.func) == 'SignaturesMeta' and not rm[2].value.args):
+			raise Untranslatable('read_metadata: shape of the body')
+		for kw in rm[2].value.keywords:
+			v = ast.unparse(kw.value)
+			g = _re.fullmatch(r"empty_to_none\(group\.attrs\.get\('(\w+)'\)\)", v)
+			if g:
+				rd.append((kw.arg, g.group(1), 'opt'))
+			elif v == 'extra' and kw.arg == 'extra':
+				rd.append(('extra', ex.group(1), 'json'))
+			else:
+				raise Untranslatable(f'read_metadata: field {kw.arg} = {v!r}')
+	except Untranslatable as e:
+		bad.append(f'sigs/hdf5.py: {e}')
+		wr = rd = None
+	except (SyntaxError, OSError, StopIteration, KeyError, IndexError) as e:
+		bad.append(f'sigs/hdf5.py: {e!r}')
+		wr = rd = None
+	b = lambda x: 'true' if x else 'false'
+	kind = {'int': '.int', 'text': '.text', 'opt': '.opt', 'json': '.json'}
+	text = ('/-\nGENERATED by harness/pytrace.py from src/gambit/sigs/hdf5.py — do not edit.\n'
+	        'Regenerated at the start of every check; `GambitV.Tie.PyMetaRules` proves that what the reader reads is what the writer wrote.\n-/\n'
+	        'import GambitV.Model.MetaAttrs\nnamespace GambitV.Gen\nopen GambitV.MetaAttrs\n\n'
+	        '/-- `HDF5Signatures._init_attrs` + `write_metadata`: (attribute name, what is stored under it), in program order -/\n'
+	        'def pyMetaWriter : List (String × Src) :=\n  [' + ', '.join(f'({lean_str(n)}, {v})' for n, v in (wr or [])) + ']\n\n'
+	        '/-- `HDF5Signatures.__init__` + `read_metadata`: (field, attribute name it is read from, how) -/\n'
+	        'def pyMetaReader : List (String × String × Kind) :=\n  [' + ', '.join(f'({lean_str(f_)}, {lean_str(n)}, {kind[k]})' for f_, n, k in (rd or [])) + ']\n\n'
+	        f'def pyMetaRules.untranslatable : Bool := {b(wr is None)}\n\nend GambitV.Gen\n')
+	p = out_dir / 'PyMetaRules.lean'
+	if not p.exists() or p.read_text() != text:
+		p.write_text(text)
+	report['modules']['PyMetaRules'] = hashlib.sha1(text.encode()).hexdigest()[:12]
+	report['functions'].append('sigs/hdf5.py _init_attrs, write_metadata, __init__, read_metadata (which attribute holds which field, as data)')
+	for u in bad:
+		report['untranslatable'].append(u)
+		report.setdefault('untranslatable_by_module', {}).setdefault('PyMetaRules', []).append(u)
+
+
 def _load_flow_json():
 	"""further pinned functions, kept as data (harness/flow_facts.json: module -> files, facts with their expected statements and what they say)"""
 	import json
@@ -1165,6 +1277,7 @@ def regenerate(repo: Path, out_dir: Path) -> dict:
 		report.setdefault('untranslatable_by_module', {}).setdefault('PyCsvColumns', []).append(report['untranslatable'][-1])
 	jf = json_facts(repo, out_dir, report)
 	flow_facts(repo, out_dir, report)
+	meta_rules(repo, out_dir, report)
 	return report
 
 
